@@ -28,6 +28,12 @@ ALLOCS = [8, 16, 32, 40]
 OFFSETS = [0, 1, 2]
 
 
+SMALL = {   # sub-GB world: pool of 1.6 GB, allocations below and above 1 GB, fixed memory only
+    "s0.5x3": [[S(3, 0.5)]], "s1.2x3": [[S(3, 1.2)]], "s0.1x3": [[S(3, 0.1)]], "s0.75x2": [[S(2, 0.75)]], "s0.3x1": [[S(1, 0.3)]],
+}
+PROFILES.update(SMALL)
+
+
 def scenario(conts, overcommit):
     """conts: list of (offset, alloc, profile)"""
     pipes = []
@@ -35,7 +41,8 @@ def scenario(conts, overcommit):
         ops = PROFILES[prof]
         pipes.append(dict(prio="B", arrival=off, alloc=alloc, profile=prof, parents=[[i - 1] if i else [] for i in range(len(ops))], ops=ops))
     life = max(off + sum(max(1, int(s["cpu"] * TPS) + int(s["read"] / 20 * TPS)) for o in PROFILES[prof] for s in o) for off, _, prof in conts)
-    return dict(name="F3", tps=TPS, pools=1, cpus=8, ram=POOL_RAM, overcommit=overcommit, multi=True, horizon=life + 2, pipelines=pipes)
+    ram = 1.6 if all(prof in SMALL for _, _, prof in conts) else POOL_RAM
+    return dict(name="F3", tps=TPS, pools=1, cpus=8, ram=ram, overcommit=overcommit, multi=True, horizon=life + 2, pipelines=pipes)
 
 
 def run(sc, trace=None):
@@ -72,7 +79,7 @@ def run(sc, trace=None):
 
 
 def cases(tier, seed=0):
-    profs = list(PROFILES)
+    profs = [p for p in PROFILES if p not in SMALL]
     one = [(o, a, p) for o in OFFSETS for a in ALLOCS for p in profs]
     out = []
     # two containers: full ordered product (nondecreasing offsets: creation order = list order)
@@ -82,6 +89,11 @@ def cases(tier, seed=0):
     # three containers
     small = [(o, a, p) for o in (0, 1) for a in ((16, 32) if tier == "quick" else (8, 16, 32, 40)) for p in profs]
     for cs in itertools.product(small, repeat=3):
+        if cs[0][0] <= cs[1][0] <= cs[2][0]:
+            out.append(cs)
+    # sub-GB allocations (scores usage^2/allocation with allocation < 1)
+    sub = [(o, a, p) for o in (0, 1) for a in (0.5, 0.75, 4) for p in SMALL]
+    for cs in itertools.product(sub, repeat=3):
         if cs[0][0] <= cs[1][0] <= cs[2][0]:
             out.append(cs)
     # four containers from a mini alphabet built around "own-limit kill and pool-level kill in the same tick"
